@@ -8,6 +8,20 @@ From NSL Require Import Base.Types Base.Syntax Model.PyNum Model.IR Model.VM Mod
                         Harness.FragLib Harness.FragLib2 Harness.FlowLib Harness.FlowLib2.
 Import ListNotations.
 
+Definition for_fresh_b (gl args : list string) (env : tenv) (s : stmt) : bool :=
+  match s with
+  | SFor (Some (_, x, _)) _ _ _ => negb (existsb (String.eqb x) gl) && negb (existsb (String.eqb x) args) && match tlookup env x with None => true | Some _ => false end
+  | _ => true
+  end.
+Fixpoint fors_fresh_b (gl args : list string) (env : tenv) (l : list stmt) : bool :=
+  match l with [] => true | s :: r => for_fresh_b gl args env s && fors_fresh_b gl args (env_step env s) r end.
+Lemma fors_fresh_b_sound gl args : forall l env, fors_fresh_b gl args env l = true -> fors_fresh gl args env l.
+Proof.
+  induction l as [|s r IH]; intros env H; [exact I|]. cbn [fors_fresh_b] in H. apply andb_prop in H as [H1 H2]. split; [|apply IH; exact H2].
+  destruct s as [| | | | |[[[t x] i]|] c n b| | | |]; try exact I. cbn [for_fresh_b] in H1. apply andb_prop in H1 as [H1 H3]. apply andb_prop in H1 as [H1 H4].
+  apply negb_true_iff in H1, H4. cbn [for_fresh]. destruct (tlookup env x); [discriminate|]. auto.
+Qed.
+
 Definition loopsrc_in_fragment (M : module) (fn : func) : bool :=
   match straight_static M fn with
   | Some (l, e, tf, F, tl, te) =>
@@ -15,7 +29,8 @@ Definition loopsrc_in_fragment (M : module) (fn : func) : bool :=
       forallb tok (flat_map (wtopexprs flow_depth) tl ++ [te]) &&
       forallb (fun q => PrimFloat.eqb q q) (flat_map tflits (flat_map (wtopexprs flow_depth) tl ++ [te])) &&
       forallb (fresh_decl_b (glnames M) (argnames fn)) l &&
-      forallb (fun p => negb (existsb (String.eqb (snd p)) (glnames M))) (f_args fn)
+      forallb (fun p => negb (existsb (String.eqb (snd p)) (glnames M))) (f_args fn) &&
+      fors_fresh_b (glnames M) (argnames fn) (fenv M fn) l
   | None => false
   end.
 
@@ -25,17 +40,18 @@ Lemma loopsrc_in_fragment_sound M fn : loopsrc_in_fragment M fn = true ->
     elab_func (genv_of M) (genvl M) fn = EOk tf /\ lower_func (m_structs M) (glnames M) tf = LOk F /\
     tf_body tf = tl ++ [TRet (Some te)] /\ length tl = length l /\ forallb tok (flat_map (wtopexprs flow_depth) tl ++ [te]) = true /\
     (forall q, In q (flat_map tflits (flat_map (wtopexprs flow_depth) tl ++ [te])) -> PrimFloat.eqb q q = true) /\
-    Forall (fresh_decl (glnames M) (argnames fn)) l /\ (forall x, In x (map snd (f_args fn)) -> ~ In x (glnames M)).
+    Forall (fresh_decl (glnames M) (argnames fn)) l /\ (forall x, In x (map snd (f_args fn)) -> ~ In x (glnames M)) /\
+    fors_fresh (glnames M) (argnames fn) (fenv M fn) l.
 Proof.
   unfold loopsrc_in_fragment, straight_static. intros H.
   destruct (split_last_s (f_body fn)) as [[l [| | |[e|]| | | | | |]]|] eqn:Eb; try discriminate. apply split_last_s_spec in Eb.
   destruct (elab_func (genv_of M) (genvl M) fn) as [tf| |] eqn:Ef; try discriminate.
   destruct (split_last_s (tf_body tf)) as [[tl [| | |[te|]| | | | | |]]|] eqn:Et; try discriminate. apply split_last_s_spec in Et.
   destruct (lower_func (m_structs M) (glnames M) tf) as [F| |] eqn:El; try discriminate.
-  apply andb_prop in H as [H Hargs]. apply andb_prop in H as [H Hfresh]. apply andb_prop in H as [H Hnan]. apply andb_prop in H as [H Hk].
+  apply andb_prop in H as [H Hff]. apply andb_prop in H as [H Hargs]. apply andb_prop in H as [H Hfresh]. apply andb_prop in H as [H Hnan]. apply andb_prop in H as [H Hk].
   apply andb_prop in H as [H Hlen]. apply andb_prop in H as [Hs Hp].
   exists l, e, tf, F, tl, te. split; [exact Eb|]. split; [exact Hs|]. split; [exact Hp|]. split; [reflexivity|]. split; [exact El|]. split; [exact Et|].
-  split; [apply Nat.eqb_eq; exact Hlen|]. split; [exact Hk|]. split; [|split].
+  split; [apply Nat.eqb_eq; exact Hlen|]. split; [exact Hk|]. split; [|split; [|split; [|apply fors_fresh_b_sound; exact Hff]]].
   - intros q Hq. rewrite forallb_forall in Hnan. apply Hnan. exact Hq.
   - rewrite forallb_forall in Hfresh. apply Forall_forall. intros s Hs'. specialize (Hfresh s Hs').
     destruct s; cbn in *; try exact I. apply andb_prop in Hfresh as [H1 H2]. apply negb_true_iff in H1, H2. auto.
@@ -43,16 +59,18 @@ Proof.
     apply negb_true_iff in Hargs. rewrite (existsb_true_in _ _ Hg) in Hargs. discriminate.
 Qed.
 
-Definition has_while (l : list stmt) : bool := existsb (fun s => match s with SWhile _ _ | SDo _ _ => true | _ => false end) l.
+Definition has_while (l : list stmt) : bool := existsb (fun s => match s with SWhile _ _ | SDo _ _ | SFor _ _ _ _ => true | _ => false end) l.
+Definition has_for (l : list stmt) : bool := existsb (fun s => match s with SFor _ _ _ _ => true | _ => false end) l.
 Definition has_do (l : list stmt) : bool := existsb (fun s => match s with SDo _ _ => true | _ => false end) l.
 
-(** 1000000 * functions + 10000 * inside the end-to-end fragment with exact literals + 100 * those among them with a loop + those with a do loop *)
+(** 100000000 * functions + 1000000 * inside the end-to-end fragment with exact literals + 10000 * those among them with a loop + 100 * with a do loop + with a for loop *)
 Definition loop_case (M : module) : Z :=
   let e2e := filter (fun fn => loopsrc_in_fragment M fn &&
                        match straight_static M fn with Some (_, _, _, _, tl, te) => lits_exact_b (flat_map tflits (flat_map (wtopexprs flow_depth) tl ++ [te])) | None => false end) (m_funcs M) in
   let withloop := filter (fun fn => match straight_static M fn with Some (l, _, _, _, _, _) => has_while l | None => false end) e2e in
   let withdo := filter (fun fn => match straight_static M fn with Some (l, _, _, _, _, _) => has_do l | None => false end) e2e in
-  (Z.of_nat (length (m_funcs M)) * 1000000 + Z.of_nat (length e2e) * 10000 + Z.of_nat (length withloop) * 100 + Z.of_nat (length withdo))%Z.
+  let withfor := filter (fun fn => match straight_static M fn with Some (l, _, _, _, _, _) => has_for l | None => false end) e2e in
+  (Z.of_nat (length (m_funcs M)) * 100000000 + Z.of_nat (length e2e) * 1000000 + Z.of_nat (length withloop) * 10000 + Z.of_nat (length withdo) * 100 + Z.of_nat (length withfor))%Z.
 
 (** the typed-level fragment of [loop_function_correct] (while, do and for loops at the top level):
     10000 * functions + 100 * inside + those among them with a for loop *)
